@@ -25,13 +25,15 @@ def configs(tier):
     out = []
     sc_dims = [({'l': 2, 'q': [], 's': []}, 0), ({'l': 1, 'q': [], 's': []}, 1), ({'l': 0, 'q': [2], 's': []}, 0), ({'l': 0, 'q': [], 's': [1]}, 0),
                ({'l': 1, 'q': [2], 's': [1]}, 0)]
-    if tier == 'thorough': sc_dims += [({'l': 0, 'q': [3], 's': []}, 0), ({'l': 1, 'q': [2, 2], 's': []}, 1)]
+    # ('q' blocks of dimension 3 and 's' blocks of order 2 were probed in the thorough tier: no verdict within 36 minutes - outside)
+    if tier == 'thorough': sc_dims += [({'l': 2, 'q': [2], 's': [1]}, 1), ({'l': 1, 'q': [2, 2], 's': []}, 1), ({'l': 2, 'q': [], 's': [1, 1]}, 0)]
     for d, mnl in sc_dims: out.append({'part': 'compute_scaling', 'dims': d, 'mnl': mnl})
     for d, mnl in [({'l': 2, 'q': [], 's': []}, 0), ({'l': 1, 'q': [], 's': []}, 1)]:
         out.append({'part': 'update_scaling', 'dims': d, 'mnl': mnl})
     kd = [({'l': 1, 'q': [], 's': []}, 0, 1, 0), ({'l': 2, 'q': [], 's': []}, 0, 2, 1), ({'l': 0, 'q': [2], 's': []}, 0, 2, 1), ({'l': 1, 'q': [], 's': []}, 1, 2, 1),
           ({'l': 0, 'q': [], 's': [1]}, 0, 1, 0), ({'l': 1, 'q': [2], 's': []}, 0, 2, 0)]
-    if tier == 'thorough': kd += [({'l': 0, 'q': [], 's': [2]}, 0, 2, 1), ({'l': 2, 'q': [2], 's': [1]}, 1, 2, 1)]
+    # (two 'q' blocks together with the reduced systems of kkt_ldl2 / kkt_chol: probed, not decided within 4 minutes per identity - outside)
+    if tier == 'thorough': kd += [({'l': 2, 'q': [2], 's': [1]}, 1, 2, 1), ({'l': 2, 'q': [], 's': [1, 1]}, 0, 3, 1), ({'l': 2, 'q': [], 's': []}, 1, 3, 1)]
     for fac in ('kkt_ldl', 'kkt_ldl2', 'kkt_chol'):
         for d, mnl, n, p in kd:
             if fac == 'kkt_chol' and d['q']: p = 0       # QR elimination together with a 'q' block: decided only erratically (probed) - outside
@@ -229,8 +231,14 @@ def install_lapack_contract(Wd, A, mk, assume, rec):
         R = num(mk('R0'))
         # the orthogonal factor ranges over a finite family of exact rational orthogonal matrices (a fully symbolic Q with
         # Q'Q = I was probed: nlsat decides the resulting identities only erratically within minutes); R and all other data stay symbolic
-        if n != 2: raise NotImplementedError('geqrf stub: n != 2')
-        fam = {0: [[(0, 1), (1, 1)], [(1, 1), (0, 1)]], 1: [[(3, 5), (-4, 5)], [(4, 5), (3, 5)]], 2: [[(-5, 13), (12, 13)], [(12, 13), (5, 13)]]}[rec.get('qfam', 1)]
+        if n == 2:
+            fam = {0: [[(0, 1), (1, 1)], [(1, 1), (0, 1)]], 1: [[(3, 5), (-4, 5)], [(4, 5), (3, 5)]], 2: [[(-5, 13), (12, 13)], [(12, 13), (5, 13)]]}[rec.get('qfam', 1)]
+        elif n == 3:
+            # a cyclic permutation and the Householder reflections I - 2vv'/v'v for v = (1,1,1), (1,2,2)
+            fam = {0: [[(0, 1), (0, 1), (1, 1)], [(1, 1), (0, 1), (0, 1)], [(0, 1), (1, 1), (0, 1)]],
+                   1: [[(1, 3), (-2, 3), (-2, 3)], [(-2, 3), (1, 3), (-2, 3)], [(-2, 3), (-2, 3), (1, 3)]],
+                   2: [[(7, 9), (-4, 9), (-4, 9)], [(-4, 9), (1, 9), (-8, 9)], [(-4, 9), (-8, 9), (1, 9)]]}[rec.get('qfam', 1)]
+        else: raise NotImplementedError('geqrf stub: n = %d' % n)
         Q = [[A.const(a_)/A.const(b_) for (a_, b_) in row] for row in fam]
         for i in range(n): assume(A.eq(Q[i][0]*R, a[i]))
         assume(A.not_(A.eq(R, zero)))                                   # A has full row rank (otherwise trtrs raises ArithmeticError: documented)
@@ -453,7 +461,7 @@ def main(tier):
     ev.cov.update({'states': max(1, paths), 'transitions': max(1, ev.obl['total']), 'traces_validated_against_impl': 0, 'configurations': len(cfgs),
                    'functions_encoded': ['misc.compute_scaling', 'misc.update_scaling', 'misc.kkt_ldl', 'misc.kkt_ldl2', 'misc.scale/pack/unpack/sgemv (Python fallbacks)'],
                    'source_hash': loader.src_hash(['misc']),
-                   'bounds': "cone structures with l <= 2, q blocks of dimension 2 (3 thorough), 's' blocks of order <= 1 (2 thorough, kkt only), mnl <= 1, n <= 2, p <= 1; all data symbolic reals"})
+                   'bounds': "cone structures with l <= 2, up to two q blocks of dimension 2, 's' blocks of order 1, mnl <= 1, n <= 2 (3 thorough), p <= 1; all data symbolic reals"})
     ev.assumptions += ['lapack.sytrf/sytrs (potrf/potrs) are contract stubs: the solve returns any X with sym(K) X = rhs for the K assembled by the code; kkt_chol, kkt_chol2, kkt_qr are not covered',
                        "exact real arithmetic - 'to working accuracy' and drift bounds are not decided", 'the scaling operator used in the oracle is the independent definition of vp/oracles/cone.py']
     return common.finish(ev, violations, sorted(dict(known_hits).items()), herr, inconc)
